@@ -35,11 +35,12 @@ def _feat(cfg, avoid=()):
 
 PROFILE = {
     "feat": _feat,
-    "edits": ["var", "ver", "lit", "rtx", "comment", "unrelated", "default"],
+    "edits": ["var", "ver", "lit", "rtx", "comment", "unrelated", "default", "addload", "addload"],
     "n": (3, 10),
     "locations": ["package", "package", "package", "main", "notebook"],
     "p_restart": 0.7,
     "p_proc2": 0.35,
+    "p_driver_keep": 0.15,
     "stores": ("local", "local", "local+cache", "memory"),
 }
 
